@@ -389,6 +389,66 @@ def generate(api):
          and len(re.findall(r"\breturn\s+Some\b", fb)) == 2,
          "find_recursive_pattern looks only at pattern elements and, first, only at paints of their own descendants")
 
+    # ---------------------------------------------------------------- list-valued filter attributes (second pass)
+    tsrc2 = rd(TREE)
+    nb = fn_body(tsrc2, 'node_attribute') or ''
+    fv = re.search(r"impl\s*<[^>]*>\s*FromValue\s*<[^>]*>\s*for\s+SvgNode\s*<[^>]*>\s*\{", tsrc2)
+    fvb = ''
+    if fv:
+        j = close_brace(tsrc2, fv.end() - 1)
+        fvb = tsrc2[fv.end():j] if j is not None else ''
+    pat_iri = (r"let\s+id\s*=\s*if\s+aid\s*==\s*AId\s*::\s*Href\s*\{\s*svgtypes\s*::\s*IRI\s*::\s*from_str\s*\(\s*value\s*\)\s*\.\s*ok\s*\(\s*\)\s*\.\s*map\s*\(\s*\|\s*v\s*\|\s*v\s*\.\s*0\s*\)\s*\}"
+               r"\s*else\s*\{\s*svgtypes\s*::\s*FuncIRI\s*::\s*from_str\s*\(\s*value\s*\)\s*\.\s*ok\s*\(\s*\)\s*\.\s*map\s*\(\s*\|\s*v\s*\|\s*v\s*\.\s*0\s*\)\s*\}\s*\?\s*;")
+    setg3('G_NODEATTR_FUNCIRI', bool(re.search(pat_iri, nb)) and bool(re.search(pat_iri, fvb)),
+          "node_attribute / attribute::<SvgNode> resolve a single (Func)IRI only: a list-valued filter attribute is no link for them")
+    fsrc = rd(FILT)
+    cb = fn_body(fsrc, 'convert') or ''
+    m_url = re.search(r"svgtypes\s*::\s*FilterValue\s*::\s*Url\s*\(\s*url\s*\)\s*=>\s*\{", cb)
+    ub = ''
+    if m_url:
+        j = close_brace(cb, m_url.end() - 1)
+        ub = squash(cb[m_url.end():j]) if j is not None else ''
+    via = (ub == "ifletSome(link)=node.document().element_by_id(url){ifletOk(res)=convert_url(link,state,object_bbox,cache){ifletSome(f)=res{filters.push(f);}}"
+                 "else{has_invalid_urls=true;}}else{has_invalid_urls=true;}"
+           and len(re.findall(r"\bconvert_url\s*\(", cb)) == 1 and not re.search(r"\bcollect_children\s*\(|\blet\s+(mut\s+)?state\b", cb)
+           and bool(re.search(r"for\s+func\s+in\s+svgtypes\s*::\s*FilterValueListParser\s*::\s*from\s*\(\s*value\s*\)\s*\{", cb)))
+    setg3('G_FLIST_VIA_URL', via, "filter::convert follows every url entry of the list through convert_url with the caller's state, and nothing else")
+    setg3('G_FLIST_DROP_RULE', bool(re.search(r"if\s+filters\s*\.\s*is_empty\s*\(\s*\)\s*&&\s*has_invalid_urls\s*\{\s*return\s+Err\s*\(\s*\(\s*\)\s*\)\s*;\s*\}\s*Ok\s*\(\s*filters\s*\)\s*$", cb.strip())),
+          "filter::convert fails (element dropped) exactly when no filter was produced and an url was invalid")
+
+    # ---------------------------------------------------------------- chain walks of is_cacheable (second pass)
+    for rel, aid, name in ((CLIP, 'ClipPath', 'G_CLIP_CHAIN_VISITED'), (MASK, 'Mask', 'G_MASK_CHAIN_VISITED')):
+        cb2 = fn_body(rd(rel), 'is_cacheable') or ''
+        okc = bool(re.search(r"let\s+mut\s+chain\s*=\s*vec\s*!\s*\[\s*node\s*\]\s*;\s*while\s+let\s+Some\s*\(\s*link\s*\)\s*=\s*chain\s*\.\s*last\s*\(\s*\)\s*\.\s*and_then\s*\(\s*\|\s*n\s*\|\s*"
+                             r"n\s*\.\s*attribute\s*::\s*<\s*SvgNode\s*>\s*\(\s*AId\s*::\s*%s\s*\)\s*\)\s*\{\s*if\s+chain\s*\.\s*contains\s*\(\s*&\s*link\s*\)\s*\{\s*break\s*;\s*\}\s*"
+                             r"chain\s*\.\s*push\s*\(\s*link\s*\)\s*;\s*\}" % aid, cb2)) \
+            and len(re.findall(r"\b(while|loop|for)\b", cb2)) == 1
+        setg3(name, okc, "%s is_cacheable follows the %s chain only through elements it has not visited yet" % (rel.rsplit('/', 1)[1], aid))
+
+    # ---------------------------------------------------------------- every link-following construct of parser/** (second pass)
+    SITE_PATS = (('NodeAttr', r"\.\s*node_attribute\s*\("), ('AttrNode', r"\.\s*(?:try_|find_)?attribute\s*::\s*<\s*SvgNode\s*>\s*\("),
+                 ('HrefIter', r"\.\s*href_iter\s*\(\s*\)"), ('ById', r"\.\s*element_by_id\s*\("), ('UseHref', r"\bresolve_href\s*\("))
+    sites = []
+    for path in sorted(_glob.glob(_os.path.join(base, '**', '*.rs'), recursive=True)):
+        try:
+            src = strip_comments(open(path, encoding='utf-8').read())
+        except OSError:
+            continue
+        relp = _os.path.relpath(path, base)
+        fns = [(m.start(), m.group(1)) for m in re.finditer(r"\bfn\s+(\w+)", src)]
+        cnt = {}
+        for kind, pat in SITE_PATS:
+            for m in re.finditer(pat, src):
+                fn = '?'
+                for pos, nm in fns:
+                    if pos < m.start():
+                        fn = nm
+                if re.match(r"\s*fn\s", src[max(0, m.start() - 4):m.start() + 1]):
+                    continue
+                cnt[(fn, kind)] = cnt.get((fn, kind), 0) + 1
+        for (fn, kind), c in sorted(cnt.items()):
+            sites.append((relp, fn, kind, c))
+
     # ---------------------------------------------------------------- nested documents (image / feImage -> load_sub_svg)
     IMG = 'crates/usvg/src/parser/image.rs'
     isrc = rd(IMG)
@@ -423,7 +483,7 @@ def generate(api):
 
     out = [api.HEADER,
            "(* Guards of usvg's reference handling as found in the source (tools/gen_links.py). *)",
-           "From Coq Require Import ZArith List.\nImport ListNotations.\n",
+           "From Coq Require Import ZArith List String.\nImport ListNotations.\n",
            "Inductive pstep := PPatterns | PLinkClip | PLinkMask | PLinkFilter | PFeImage | PUnknown.\n"]
     for k in sorted(G):
         out.append("(* %s *)\nDefinition %s : bool := %s." % (notes[k], k, 'true' if G[k] else 'false'))
@@ -434,6 +494,12 @@ def generate(api):
     out.append("Definition TEXT_DEPTH_STEP : Z := (%d)%%Z." % step_text)
     out.append("\n(* the fix_recursive_* calls of svgtree::parse(), in order *)")
     out.append("Definition PREPASS : list pstep := [%s].\n" % "; ".join(steps))
+    out.append("(* every link-following construct of crates/usvg/src/parser/**: (file, enclosing fn, construct, occurrences) *)")
+    out.append("Inductive skind := NodeAttr | AttrNode | HrefIter | ById | UseHref.")
+    out.append("Open Scope string_scope.")
+    out.append("Definition SITES : list (string * string * skind * nat) := [\n  %s\n]." % ";\n  ".join(
+        '("%s", "%s", %s, %d)' % (f, fn, k, c) for f, fn, k, c in sites))
+    out.append("Close Scope string_scope.\n")
     api.write_gen('LinkGuards.v', "\n".join(out))
     if miss3:
         api.broken('guards', 'pre-pass scope / nested-document guards', ['C03'], "; ".join(miss3))
